@@ -165,4 +165,16 @@ CHECKS = {
              'init_timeout), each routine called at most once and in the documented order, early synchronous '
              'initialisation before an init-time event is handled; the verdict must not depend on the creation order.',
         note='No tie between a completion and a time-out is generated.'),
+    'C09': dict(
+        level='exploration', design_ref='DESIGN.md 4/C09',
+        technique=PBT + '; order-of-delivery model of the first fatal source over generated timelines (several sources per virtual instant, in both entry points)',
+        text='Generated timelines of fatal sources (failing handler called by a catching caller, calc_output error, handler '
+             'failing inside the simulator task, abort(exc), abort/shutdown control events, abort(CancelledError), a '
+             'monitored block task failing at an off-grid instant, abort before the start) and benign stimuli (unknown '
+             'type, missing parameter, non-string source; failing init_async, _restore_state, stop, stop_async) run '
+             'through edzed.run() with a returning/failing supporting task or through run_forever()+shutdown(); the first '
+             'source in order of delivery must determine Circuit.error (and __cause__), the exception of run_forever(), '
+             'shutdown() and run(); benign stimuli leave is_ready() True; afterwards the error is never replaced, the '
+             'circuit stays not ready and cannot be restarted.',
+        note='A calc_output error is delivered when the simulator task next runs and therefore loses against sources of the same driver step.'),
 }
